@@ -16,7 +16,51 @@ def _text(n):
     return ' '.join(ast.unparse(n).split())
 
 
+_MODULE_LITERALS = {}
+
+
+def _module_literal(n):
+    """A plain name that the enclosing module binds exactly once, at top level, to a string / tuple-of-strings literal
+    stands for that literal: `initial in _LINE_BREAKS` is the same atom as `initial in '\\r\\n'`."""
+    if not isinstance(n, ast.Name):
+        return n
+    root = n
+    fn_locals = False
+    while getattr(root, '_parent', None) is not None:
+        root = root._parent
+        if isinstance(root, (ast.FunctionDef, ast.AsyncFunctionDef, ast.Lambda)):
+            # a local of the same name shadows the module constant
+            for x in ast.walk(root):
+                if isinstance(x, ast.Name) and x.id == n.id and isinstance(x.ctx, (ast.Store, ast.Del)):
+                    fn_locals = True
+                if isinstance(x, ast.arg) and x.arg == n.id:
+                    fn_locals = True
+    if fn_locals or not isinstance(root, ast.Module):
+        return n
+    table = _MODULE_LITERALS.get(id(root))
+    if table is None:
+        table = {}
+        counts = {}
+        for st in root.body:
+            for t in (st.targets if isinstance(st, ast.Assign) else [st.target] if isinstance(st, (ast.AnnAssign, ast.AugAssign)) else []):
+                if isinstance(t, ast.Name):
+                    counts[t.id] = counts.get(t.id, 0) + 1
+                    v = getattr(st, 'value', None)
+                    ok = isinstance(v, ast.Constant) and isinstance(v.value, str)
+                    ok = ok or (isinstance(v, (ast.Tuple, ast.List, ast.Set)) and v.elts and all(
+                        isinstance(e, ast.Constant) and isinstance(e.value, str) for e in v.elts))
+                    if ok and isinstance(st, (ast.Assign, ast.AnnAssign)):
+                        table[t.id] = v
+        for name, c in counts.items():
+            if c != 1:
+                table.pop(name, None)
+        _MODULE_LITERALS[id(root)] = (table, root)      # the root is kept alive so that its id is not reused
+        table = _MODULE_LITERALS[id(root)]
+    return table[0].get(n.id, n)
+
+
 def _const_key(n):
+    n = _module_literal(n)
     if isinstance(n, (ast.Tuple, ast.List, ast.Set)) and all(isinstance(e, ast.Constant) for e in n.elts):
         return '(%s)' % ', '.join(sorted({repr(e.value) for e in n.elts}))
     return _text(n)
